@@ -5,6 +5,7 @@ package main
 // three-state machine (no-hi, hi, authenticated(user, level)).
 
 import (
+	"sort"
 	"encoding/base64"
 	"fmt"
 	"strings"
@@ -444,11 +445,20 @@ func vfC11Exec(hist []int, last bool) vfXResult {
 		}
 		s.subsLock.RUnlock()
 		att = fmt.Sprint(len(l))
+		sort.Strings(l)
 		for _, k := range l {
-			if strings.HasPrefix(k, "grp") {
+			switch {
+			case strings.HasPrefix(k, "grp"):
 				att += "g"
-			} else {
-				att += "u"
+			case k == s.uid.UserId():
+				att += "u" // the session's own 'me'
+			default:
+				att += "o" // another user's topic (on behalf of)
+				for n, u := range x.users {
+					if u.id() == k {
+						att += ":" + n
+					}
+				}
 			}
 		}
 	}
